@@ -442,6 +442,10 @@ def at_table(rnd):
         return ([["Excl", r"^\s*resume", "enable_exclusion"], ["Excl", r"^\s*stop", "disable_exclusion"],
                  ["ExcludeRegion", r"^\s*(enable|on)(\s|$)", "enable_exclusion"]],
                 {"enable_exclusion": ["resume", "  resume now", "on"], "disable_exclusion": ["stop", "stopped"]})
+    if k < 0.88:
+        # patterns that accept the empty string (what the settings UI stores for a blank field), commands sent without parameters
+        return ([["Stop", "", "disable_exclusion"], ["Go", ".*", "enable_exclusion"], ["Halt", r"^\s*$", "disable_exclusion"]],
+                {"enable_exclusion": ["", "", "now"], "disable_exclusion": ["", "", "  "]})
     return ([["NoExcl", None, "disable_exclusion"], ["DoExcl", None, "enable_exclusion"],
              ["Both", "^a", "disable_exclusion"], ["Both", "^ab", "enable_exclusion"]],
             {"enable_exclusion": ["", "x", "ab"], "disable_exclusion": ["", "y", "a", "ac"]})
